@@ -11,10 +11,51 @@ OTHER_PROPS = {"C11": "5/C11", "C17": "5/C17", "C18": "5/C18"}
 PROOF_PROPS.update({"C10": "5/C10", "C12": "5/C12"})
 
 
+def c17_reload_monitor(tree):
+    """run-time contract on load_scenario over a two-step history: a file that is rewritten and loaded again (same
+    path, same second) must yield the scenario of its NEW content (u.load_yaml is otherwise an assumed dependency)"""
+    import os, subprocess, sys, json
+    code = r'''
+import sys, os, tempfile, yaml
+sys.path.insert(0, sys.argv[1])
+from nasim.scenarios import load_scenario
+src = os.path.join(sys.argv[1], "nasim", "scenarios", "benchmark", "tiny.yaml")
+doc = yaml.safe_load(open(src))
+d = tempfile.mkdtemp()
+p = os.path.join(d, "s.yaml")
+yaml.safe_dump(doc, open(p, "w"), sort_keys=False)
+a = load_scenario(p)
+doc["step_limit"] = 7
+doc["os_scan_cost"] = 3
+doc["firewall"]["(1, 2)"] = ["ssh"]
+yaml.safe_dump(doc, open(p, "w"), sort_keys=False)
+b = load_scenario(p)
+ok = b.step_limit == 7 and b.os_scan_cost == 3 and list(b.firewall[(1, 2)]) == ["ssh"] and a.step_limit == 1000
+print("RELOAD-OK" if ok else "RELOAD-STALE")
+'''
+    p = subprocess.run([sys.executable, "-c", code, tree], stdout=subprocess.PIPE, stderr=subprocess.STDOUT, text=True,
+                       timeout=300, env=dict(os.environ, PYTHONPATH=tree))
+    return "RELOAD-OK" in p.stdout, p.stdout[-300:]
+
+
 def run(prop, tier, tree, record):
     if prop in OTHER_PROPS:
         code, ev = driver.check_property(prop, tier=tier, tree=tree, record=record, level="other",
                                          design_ref=OTHER_PROPS[prop])
+        if prop == "C17":
+            import json, os
+            ok, out = c17_reload_monitor(tree)
+            if ev is not None:
+                ev["coverage"]["reload_history_monitor"] = "ok" if ok else out
+            if not ok:
+                path = os.path.join(driver.VERIF, "replays", "C17-reload.json")
+                os.makedirs(os.path.dirname(path), exist_ok=True)
+                json.dump({"harness": "none", "property": "C17", "obligation": "load_scenario:post:C17.reload-reflects-the-file",
+                           "verifier_output": out}, open(path, "w"), indent=1)
+                print(f"VIOLATION property=C17 replay={path} no-failing-input-found")
+                print("  failed obligation: nasim.scenarios.load_scenario:post:C17.reload-reflects-the-file (run-time contract, "
+                      "history: load, rewrite, load)")
+                code = 1
         if ev is not None:
             driver.write_evidence(prop, ev)
         return code
@@ -207,6 +248,28 @@ def run_gen(prop, tier, tree, record):
             else:
                 shipped[n] = {"plan_len": len(plan), "replayed_terminated": True}
         extra["shipped_benchmarks"] = shipped
+        # static sufficient conditions G2-G4 over many seeds of the generated benchmark parameter sets; a scenario that
+        # violates one is then solved for real (a G-violation that is still solvable is not a C16 violation)
+        sbad, sn = gm.run_static(tree, tier)
+        extra["static_G2_G4"] = {"scenarios": sn, "with_G_violation": len(sbad)}
+        from nasim.scenarios.generator import ScenarioGenerator
+        shown = 0
+        for r_ in sbad[:40]:
+            try:
+                sc_ = ScenarioGenerator().generate(seed=r_["seed"], **r_["params"])
+                plan_ = gm.solve(sc_, tree)
+            except Exception:
+                plan_ = None
+            if plan_ is None and shown < 2:
+                shown += 1
+                nviol += 1
+                path = os.path.join(rdir, f"C16-static-{shown}.json")
+                rep = {"harness": "gen", "property": "C16", "clause": "C16.unsolvable", "params": r_["params"], "seed": r_["seed"],
+                       "obligation": "ScenarioGenerator.generate:post:" + ",".join(r_["violations"])}
+                j = driver.run_replay(rep, tree, path)
+                print(f"VIOLATION property=C16 replay={path}" + ("" if j.get("reproduced") else " no-failing-input-found"))
+                print(f"  failed obligation: nasim.scenarios.generator.ScenarioGenerator.generate:post:{r_['violations']} and unsolvable (run-time contract)")
+                code = 1
     if prop == "C15":
         for f in known:
             w = f.get("witness_name")
